@@ -594,7 +594,8 @@ class TLSConnection(TLSRecordLayer):
         # If the server elected to resume the session, it is handled here.
         for result in self._clientResume(session, serverHello,
                         clientHello.random,
-                        nextProto, settings):
+                        nextProto, settings,
+                        clientHello.session_id):
             if result in (0, 1): yield result
             else: break
 
@@ -883,6 +884,12 @@ class TLSConnection(TLSRecordLayer):
             extensions = None
 
         sent_version = min(settings.maxVersion, (3, 3))
+
+        # when offering a ticket the session_id must not be empty, so that
+        # the server's acceptance of the ticket can be recognised by the
+        # echoed session_id (RFC 5077 section 3.4)
+        if session and session.tls_1_0_tickets and not session_id:
+            session_id = getRandomBytes(32)
 
         # Either send ClientHello (with a resumable session)...
         if session and session.sessionID:
@@ -1794,11 +1801,16 @@ class TLSConnection(TLSRecordLayer):
         return None
 
     def _clientResume(self, session, serverHello, clientRandom,
-                      nextProto, settings):
+                      nextProto, settings, offered_session_id=None):
 
-        if session and ((session.sessionID and \
-            serverHello.session_id == session.sessionID) or
-            session.tls_1_0_tickets):
+        # The server resumed the session (by session ID or by ticket) if and
+        # only if it echoed the non-empty session_id of the ClientHello,
+        # see RFC 5246 section 7.4.1.3 and RFC 5077 section 3.4
+        if offered_session_id is None and session:
+            offered_session_id = session.sessionID
+        if session and (session.sessionID or session.tls_1_0_tickets) and \
+                serverHello.session_id and \
+                serverHello.session_id == offered_session_id:
 
             if serverHello.cipher_suite != session.cipherSuite:
                 for result in self._sendError(\
